@@ -52,12 +52,16 @@ impl util::SymbolManager<asm::Symbol>
                     {
                         if let Some(addr_start) = bankdef.addr_start.maybe_into::<usize>()
                         {
-                            let prg_offset = addr - addr_start + output_offset / 8 - 0x10;
-                            result.push_str("P:");
-                            result.push_str(&format!("{:x}", prg_offset));
-                            result.push_str(":");
-                            result.push_str(&name.replace(".", "_"));
-                            result.push_str("\n");
+                            // Labels within the 16-byte file header
+                            // have no PRG offset
+                            if let Some(prg_offset) = (addr - addr_start + output_offset / 8).checked_sub(0x10)
+                            {
+                                result.push_str("P:");
+                                result.push_str(&format!("{:x}", prg_offset));
+                                result.push_str(":");
+                                result.push_str(&name.replace(".", "_"));
+                                result.push_str("\n");
+                            }
                         }
                     }
                 }
